@@ -44,6 +44,10 @@ class C09(PropBase):
                   (good_id, ext, good[:1]), (func_id, ext, b'')]
         for bit in range(29):
             probes.append((good_id ^ (1 << bit), ext, good))
+        if func_id != good_id:
+            # the functional identifier with every single bit flipped: a 1-to-n request addressed to ANOTHER node / group is not for this layer
+            for bit in range(29):
+                probes.append((func_id ^ (1 << bit), ext, good))
         for _ in range(10):
             probes.append((gen.rand_id(rng, ext), ext, good))
         for b0 in rng.sample(range(256), 24) + [good[0] if good else 0]:
